@@ -795,6 +795,8 @@ Proof.
     apply (in_map (fun c => ck_id (cl_chunk c))). assumption. }
   destruct (Hseg Iid) as (pre & p & post & Wp & Ef & Eoff & Elen).
   unfold read_record. rewrite Eid.
+  (* the segment starts inside its chunk: no underflow *)
+  destruct (N.ltb_spec (ld_off ld) (ld_chunk ld)) as [Hu|_]; [unfold blen in Eoff; lia|].
   destruct (disk_get (ld_chunk ld) (y_disk y)) as [f|] eqn:Eg; [|right; reflexivity].
   destruct (C11_disk_is_prefix y _ f (jw_sorted _ JW) Eg Iid) as [tl Etl].
   destruct (N.ltb_spec (N.of_nat (length (f_data f))) (ld_off ld - ld_chunk ld + ld_len ld))
